@@ -533,3 +533,44 @@ unit({
         _cf('PrepareIndex'),
     ],
 })
+
+# --------------------------------------------------------------------------- U-ARCH (ArchiveFile: lookup by name, index checks, duplicate detection)
+AF = 'src/Archive/ArchiveFile.cpp'
+def _af(name, **kw):
+    d = {'file': AF, 'qual': 'ArchiveFile::' + name, 'cls': 'ArchiveFile', 'cname': 'ArchiveFile_' + name}
+    d.update(kw); return d
+unit({
+    'name': 'arch',
+    'typemap': {'std::string': 'str', 'std::vector<std::string>': 'vec_str', 'ArchiveFile': 'ArchiveFile', 'std::size_t': 'size_t'},
+    'structs': [STR_VIEW, VIEW('vec_str', 'str'), ('src/Archive/ArchiveFile.h', 'ArchiveFile')],
+    'scoped': {'XFile': '', 'StringUtility': ''},
+    'calls': {
+        'GetCount': N('ArchiveFile_GetCount'), 'GetName': T('Arch_GetName'),
+        'PathsAreEqual': N('XFile_PathsAreEqual', recv='none', args=[None, 'ref']),
+        'IsEqual': N('StringUtility_IsEqual', recv='none', args=['ref', 'ref']),
+    },
+    'functions': [
+        {'file': 'src/Archive/ArchiveFile.h', 'qual': 'GetCount', 'inclass': 'ArchiveFile', 'cls': 'ArchiveFile', 'cname': 'ArchiveFile_GetCount'},
+        _af('GetIndex'), _af('Contains'), _af('VerifyIndexInBounds'),
+        _af('VerifySortedContainerHasNoDuplicateNames', static=True),
+    ],
+})
+
+# --------------------------------------------------------------------------- U-FILER (FileReader over an assumed std::ifstream model)
+FR = 'src/Stream/FileReader.cpp'
+def _fr(name, **kw):
+    d = {'file': FR, 'qual': 'FileReader::' + name, 'cls': 'FileReader', 'cname': 'FileReader_' + name}
+    d.update(kw); return d
+unit({
+    'name': 'filer',
+    'includes': ['ifsmodel.h'],
+    'typemap': {'std::ifstream': 'Ifs', 'std::string': 'str', 'FileReader': 'FileReader'},
+    'structs': [STR_VIEW, ('src/Stream/FileReader.h', 'FileReader')],
+    'calls': {
+        'read': N('Ifs_read'), 'gcount': N('Ifs_gcount'), 'tellg': N('Ifs_tellg'), 'clear': N('Ifs_clear'),
+        'seekg': {1: N('Ifs_seekg'), 2: N('Ifs_seekg_end')},
+        'Position': N('FileReader_Position'),
+    },
+    'text_subst': [(r'!\s*self->file\b(?!\.)', '!Ifs_ok(&self->file)')],
+    'functions': [_fr('ReadImplementation'), _fr('ReadPartial'), _fr('Length'), _fr('Position'), _fr('Seek'), _fr('SeekForward'), _fr('SeekBackward')],
+})
